@@ -54,7 +54,7 @@ def RunsAs (G : List Spec.Name) (ctx : Lscr.Ctx) (code : List Instr) (a : Nat) (
   ∃ gv', GvNext G st.gvars gv' ∧ runIs ctx a code st = .ok { st with stmts := st.stmts ++ emit false (a : Int) ps, gvars := gv' }
 
 theorem fragT_simple {s : Stmt} (h : FragT s = true) (h1 : ∀ c t e, s ≠ .ifThen c t e) (h2 : ∀ c b, s ≠ .repeatWhile c b)
-    (h3 : ∀ v a b d body, s ≠ .repeatWith v a b d body) : FragS s = true := by
+    (h3 : ∀ v a b d body, s ≠ .repeatWith v a b d body) (h4 : ∀ v l body, s ≠ .repeatIn v l body) : FragS s = true := by
   cases s with
   | set lv v => simp only [FragT, Bool.and_eq_true] at h; exact h.1
   | call f as => simpa [FragT] using h
@@ -66,15 +66,17 @@ theorem fragT_simple {s : Stmt} (h : FragT s = true) (h1 : ∀ c t e, s ≠ .ifT
   | ifThen c t e => exact absurd rfl (h1 c t e)
   | repeatWhile c b => exact absurd rfl (h2 c b)
   | repeatWith v a b d body => exact absurd rfl (h3 v a b d body)
+  | repeatIn v l body => exact absurd rfl (h4 v l body)
   | _ => simp [FragT] at h
 
 theorem embSrc1_simple {s : Stmt} (h1 : ∀ c t e, s ≠ .ifThen c t e) (h2 : ∀ c b, s ≠ .repeatWhile c b)
-    (h3 : ∀ v a b d body, s ≠ .repeatWith v a b d body) (x : Src) :
+    (h3 : ∀ v a b d body, s ≠ .repeatWith v a b d body) (h4 : ∀ v l body, s ≠ .repeatIn v l body) (x : Src) :
     EmbSrc1 s x ↔ ∃ (sm : Smp) (p : Int), x = .simple sm ∧ sm.off < sm.sz ∧ EmbS s (.stmt p sm.code) ∧ PlainStmt (.stmt p sm.code) := by
   cases s with
   | ifThen c t e => exact absurd rfl (h1 c t e)
   | repeatWhile c b => exact absurd rfl (h2 c b)
   | repeatWith v a b d body => exact absurd rfl (h3 v a b d body)
+  | repeatIn v l body => exact absurd rfl (h4 v l body)
   | _ => simp only [EmbSrc1]
 
 /-- the simple-statement case, from L3 with positions -/
@@ -148,7 +150,12 @@ theorem embSrc1_wf : (s : Stmt) → (x : Src) → EmbSrc1 s x → P.wfs (lower1 
     obtain ⟨sm, p, rfl, ho, _, hp⟩ := h
     exact ⟨by simp [lower1, P.wfs, P.wf, ho, plain_simpleCode hp], nsts_lower1_pos _⟩
   | .tell .., x, h => by obtain ⟨sm, p, rfl, ho, he, hp⟩ := h; exact absurd he (by simp [EmbS])
-  | .repeatIn .., x, h => by obtain ⟨sm, p, rfl, ho, he, hp⟩ := h; exact absurd he (by simp [EmbS])
+  | .repeatIn (.var .loc v) l body, x, h => by
+    obtain ⟨presz, bp, incrsz, postsz, csz, body', pb, pk, pc, pl, ps, pg, pl2, pv, ln, rfl, ho, hc, _, hb⟩ := h
+    have h1 := embSrc_wf body body' hb
+    refine ⟨?_, nsts_lower1_pos _⟩
+    simp [lower1, P.wfs, P.wf, h1.1, wfs_append, ho, hc, simpleCode, Node.cls]
+  | .repeatIn (.int _) .., x, h => by obtain ⟨sm, p, rfl, ho, he, hp⟩ := h; exact absurd he (by simp [EmbS])
   | .exitRepeat, x, h => by obtain ⟨sm, p, rfl, ho, he, hp⟩ := h; exact absurd he (by simp [EmbS])
   | .repeatWith (.int _) .., x, h => by obtain ⟨sm, p, rfl, ho, he, hp⟩ := h; exact absurd he (by simp [EmbS])
 theorem embSrc_wf : (ss : List Stmt) → (xs : List Src) → EmbSrc ss xs → P.wfs (lower xs) = true ∧ xs.length = ss.length
